@@ -1,6 +1,6 @@
 (* C13: specification vocabulary (numbers read off a valuation) and the executable oracle used by Run_C13,
    with the lemmas that tie each boolean to the Prop it decides. *)
-From stdpp Require Import strings gmap sets fin_sets pretty numbers.
+From stdpp Require Import strings gmap sets fin_sets pretty numbers sorting.
 From CG Require Export Base.Oracle Model.Logic.
 Open Scope string_scope.
 
@@ -20,14 +20,17 @@ Definition boundedb (c : circuit) (r : gmap string nat) : bool :=
 Fixpoint relax_fix (k : nat) (c : circuit) (r : gmap string nat) : gmap string nat :=
   match k with O => r | S k => let r' := relax c r in if bool_decide (r' = r) then r else relax_fix k c r' end.
 Definition rank_fast (c : circuit) : gmap string nat := relax_fix (S (size c)) c ∅.
-Definition certb (c : circuit) : bool :=
-  closedb c && (let r := rank_fast c in check_rank c r && boundedb c r).
+(* closedb with dom c computed once (convertible with Types.closedb; vm_compute shares the let) *)
+Definition closedb_fast (c : circuit) : bool :=
+  let d := dom c in bool_decide (map_Forall (λ _ i, n_fi i ⊆ d) c).
+Definition cert_r (c : circuit) (r : gmap string nat) : bool := closedb_fast c && (check_rank c r && boundedb c r).
+Definition certb (c : circuit) : bool := cert_r c (rank_fast c).
 
 Lemma certb_sound c : certb c = true →
   closed c ∧ acyclic c ∧ ∀ a, consistent c (evalc c a) ∧
      ∀ v, consistent c v → agrees (free_nodes c) v a → agrees (dom c) v (evalc c a).
 Proof.
-  unfold certb. rewrite !andb_true_iff. intros (Hcl%closedb_spec & Hr & Hb).
+  unfold certb, cert_r. change (closedb_fast c) with (closedb c). rewrite !andb_true_iff. intros (Hcl%closedb_spec & Hr & Hb).
   assert (Hac := check_rank_sound _ _ Hr).
   unfold check_rank in Hr. rewrite bool_decide_eq_true in Hr.
   unfold boundedb in Hb. rewrite bool_decide_eq_true in Hb.
@@ -103,8 +106,35 @@ Qed.
 (* ---- subset sweeps for widths whose full truth table is out of reach (two-digit indices: w >= 11).
    The vectors are generated here, from w alone; a sweep is a TEST of the returned circuit on those vectors
    (each evaluated by the certified evaluator), not a decision for all vectors ---- *)
+(* one pass over the nodes in rank order with a value table (evalc re-evaluates shared cones, which is exponential in the
+   depth of popcount's adder chain); the table is not trusted: every vector's result is checked with consistentb and
+   against the assignment on the free nodes, which makes it THE consistent valuation (memo_unique) *)
+Definition rank_le (p q : nat * string) : Prop := p.1 ≤ q.1.
+Global Instance rank_le_dec p q : Decision (rank_le p q).
+Proof. unfold rank_le. apply _. Defined.
+Definition topo_order_r (c : circuit) (r : gmap string nat) : list string :=
+  (λ p, p.2) <$> merge_sort rank_le ((λ n, (rank_of r n, n)) <$> elements (dom c)).
+Definition eval_memo (c : circuit) (order : list string) (a : val) : val :=
+  let m := foldl (λ (m : gmap string bool) n,
+             match c !! n with
+             | Some i => <[n := if is_free i then a n else
+                                match n_ty i with C0 => false | C1 => true
+                                | t => gate_val t (λ x, default false (m !! x)) (n_fi i) end]> m
+             | None => m end) ∅ order in
+  λ n, default (a n) (m !! n).
+(* certificate and sweep share one rank table *)
 Definition sweep (c : circuit) (P : val → bool) (vs : list (list string)) : bool :=
-  forallb (λ ones, P (evalc c (lval ones))) vs.
+  let r := rank_fast c in let order := topo_order_r c r in let fr := elements (free_nodes c) in
+  cert_r c r && forallb (λ ones, let a := lval ones in let v := eval_memo c order a in
+                   consistentb c v && eq_on fr v a && P v) vs.
+Lemma memo_unique c (a vm v : val) : certb c = true → consistentb c vm = true → eq_on (elements (free_nodes c)) vm a = true →
+  consistent c v → agrees (free_nodes c) v a → agrees (dom c) v vm.
+Proof.
+  intros Hcert Hvm%consistentb_spec Heq Hv Ha.
+  destruct (certb_sound c Hcert) as (Hcl & [rank Hrank] & _).
+  apply (consistent_unique c rank Hrank); [done..|].
+  intros n Hn. rewrite Ha by done. symmetry. rewrite eq_on_spec in Heq. apply Heq. by apply elem_of_elements.
+Qed.
 Definition sel_ones (k s : nat) : list string :=
   omap (λ j, if Nat.testbit s j then Some (bitname "sel_" j) else None) (seq 0 k).
 (* every select value x (all data inputs 0, or exactly one data input 1) *)
@@ -112,7 +142,7 @@ Definition mux_sweep (w k : nat) : list (list string) :=
   s ← seq 0 (2 ^ k); d ← [] :: ((λ i, [bitname "in_" i]) <$> seq 0 w); [(sel_ones k s ++ d)%list].
 Definition mux_sweep_ok (w : nat) (c : circuit) : bool :=
   let k := sel_width w in
-  certb c && io_ok c (names "in_" w ++ names "sel_" k) ["out"] &&
+  io_ok c (names "in_" w ++ names "sel_" k) ["out"] &&
   sweep c (λ v, let i := N.to_nat (bitsN v "sel_" k) in
                 eqb (v "out") (if (i <? w)%nat then v (bitname "in_" i) else false)) (mux_sweep w k).
 (* zero, all ones (+1), single bits of a, of b, of both (carry from every position), each base pattern also with cin *)
@@ -121,15 +151,18 @@ Definition adder_sweep (w : nat) (ci : bool) : list (list string) :=
   (base ++ flat_map (λ i, [[bitname "a_" i]; [bitname "b_" i]; [bitname "a_" i; bitname "b_" i]]) (seq 0 w)
    ++ (if ci then ("cin" ::.) <$> base else []))%list.
 Definition adder_sweep_ok (w : nat) (ci co : bool) (c : circuit) : bool :=
-  certb c && io_ok c (names "a_" w ++ names "b_" w ++ (if ci then ["cin"] else [])) (names "out_" w ++ (if co then ["cout"] else [])) &&
+  io_ok c (names "a_" w ++ names "b_" w ++ (if ci then ["cin"] else [])) (names "out_" w ++ (if co then ["cout"] else [])) &&
   sweep c (λ v,
     let total := (bitsN v "a_" w + bitsN v "b_" w + N.b2n (ci && v "cin"))%N in
     (bitsN v "out_" w =? total mod 2 ^ N.of_nat w)%N && (negb co || (N.b2n (v "cout") =? total / 2 ^ N.of_nat w)%N))
     (adder_sweep w ci).
-(* no input, single inputs, the first j inputs, all inputs *)
+(* w <= 6: every vector.  Otherwise: no input, each single input, the first j inputs, all inputs, all inputs but one
+   (the vectors that need the top output bits) *)
 Definition popcount_sweep (w : nat) : list (list string) :=
-  ([] :: ((λ i, [bitname "in_" i]) <$> seq 0 w) ++ ((λ j, names "in_" j) <$> seq 2 (w - 1)))%list.
+  if (w <=? 6)%nat then subsets (names "in_" w) else
+  ([] :: ((λ i, [bitname "in_" i]) <$> seq 0 w) ++ ((λ j, names "in_" j) <$> seq 2 (w - 1))
+      ++ ((λ i, filter (λ n, n ≠ bitname "in_" i) (names "in_" w)) <$> seq 0 w))%list.
 Definition popcount_sweep_ok (w : nat) (c : circuit) : bool :=
   let m := size (outputs c) in
-  certb c && io_ok c (names "in_" w) (names "out_" m) &&
+  io_ok c (names "in_" w) (names "out_" m) &&
   sweep c (λ v, (bitsN v "out_" m =? onesN v "in_" w)%N) (popcount_sweep w).
